@@ -10,7 +10,7 @@ design = drift).
 """
 import csv, glob, gzip, bz2, io, itertools, json, os, re, sqlite3, datetime as dt
 
-from vf import check, common, gen, refcodec as rc, tlc
+from vf import check, common, gen, refcodec as rc, simulate, tlc
 from vf.common import MachineryError
 
 PROP = "C17"
@@ -226,6 +226,19 @@ def writers_part(ctx, thorough):
             traces.append(run_writer_history(base, url, h, tmp, desc))
             metas.append((name, h))
             ctx.case(("writer", name, " ".join(h)))
+    # spec -> code: behaviours generated by TLC from Writers.tla (up to 12 calls, refused writes included) replayed on the real writers
+    amap = {"Write": "write", "FailedWrite": "badwrite", "Flush": "flush", "Close": "close", "Exit": "exit"}
+    nsim = 0
+    for beh in simulate.behaviours("Writers", "Sim_Writers.cfg", 250 if not thorough else 2500, 12, ctx.seed + 17):
+        kind = beh[0][2]["kind"]
+        ops = [amap[a] for a, args, st in beh[1:] if a in amap]
+        if not ops:
+            continue
+        traces.append(run_writer_history(kind, KINDS[kind], ops, tmp, desc))
+        metas.append((kind, ops))
+        ctx.case(("writer-sim", kind, " ".join(ops)))
+        nsim += 1
+    ctx.extra["writer_behaviours_simulated_by_tlc"] = nsim
     ctx.sample({"part": "writers", "kind": metas[5][0], "history": metas[5][1], "trace": traces[5]})
     path = os.path.join(common.scratch("c17"), "wtraces.json")
     tlc.write_json(path, traces)
